@@ -234,7 +234,15 @@ def duplicates(ctx, F):
     if len(pushes) == 1:
         bb, a, t = pushes[0]
         i = a[1]
-        lits = literals(b, R, bb)
+        lits = list(literals(b, R, bb))
+        # `if (0..i).rev().any(|j| rows_equal(i, j)) { push(i) }`: the push is guarded by whatever makes the closure true for some j
+        for l in list(lits):
+            if l[0] == 'true' and is_call(l[1], 'Iterator::any') and len(l[1][2]) == 2 and l[1][2][1][0] == 'closure':
+                extra = prune.closure_true_facts(F, l[1][2][1])
+                if extra:
+                    cbx = F.closure(l[1][2][1][1])
+                    item = ('call', 'Iterator::next', (l[1][2][0],))
+                    lits += [(f[0], prune.subst(f[1], {('param', cbx.arg_names()[-1]): item})) + tuple(f[2:]) for f in extra]
         eqs = [l for l in lits if l[0] == 'true' and is_call(l[1], 'RelativeEq::relative_eq')]
         mat = [l for l in eqs if any(is_call(x, 'ArrayBase::row') for x in walk(l[1][2][0]))]
         bias = [l for l in eqs if any(is_call(x, 'Index::index') for x in walk(l[1][2][0]))]
@@ -282,6 +290,7 @@ def redundant(ctx, F):
     i = idx[0] if idx else None
     # pushes onto `redundant` (not onto its clone `indices`)
     real = []
+    unguarded = []
     for pb, pt in b.calls_to('Vec::push'):
         op = pt['args'][0]
         l = op['place']['local']
@@ -294,6 +303,12 @@ def redundant(ctx, F):
         lits = literals(b, R, pb)
         if any(l_[0] == 'is' and is_call(l_[1], 'AffFuncBase::solve_linprog') for l_ in lits):
             real.append((pb, pt, lits, name))
+        else:
+            unguarded.append((pb, pt, name, l))
+    # every other push onto the same vector (same variable) is a mark that no LP answer justifies
+    stray = [u for u in unguarded if real and (u[2] == real[0][3] if real[0][3] is not None else u[3] == real[0][1]['args'][0]['place']['local'])]
+    for pb_, pt_, nm_, l_ in stray:
+        ctx.bad('C15.R3', site + '#mark', 'a row is marked redundant without an LP answer about it (push onto `%s` outside the Optimal arm)' % (nm_ or 'the redundant list'), pt_['span'])
     ok = False
     if len(real) == 1:
         pb, pt, lits, name = real[0]
@@ -305,7 +320,7 @@ def redundant(ctx, F):
                 and lhs[2][1][0] == 'vfield' and lhs[2][1][2] == 'Optimal'
             bound_ok = rhs[0] == 'bin' and rhs[1] == 'Add' and is_call(rhs[2], 'Index::index') and rhs[2][2][0] == ('field', ('param', 'self'), 'bias') and s(rhs[2][2][1]) == s(i)
             pushed_ok = s(R.call_args(pb)[1]) == s(i)
-            ok = dot_ok and bound_ok and pushed_ok
+            ok = dot_ok and bound_ok and pushed_ok and not stray
     (ctx.ok if ok else ctx.bad)('C15.R3', site + '#mark', 'row i marked redundant only in the Optimal arm under a_i·p <= b_i + eps (same i for row, bound and mark)' if ok else
                                 'a row is marked redundant outside "Optimal and a_i·p <= b_i + eps" for its own index', b.span)
     # other arms
